@@ -180,14 +180,33 @@ func quat(r *rand.Rand) quaternion.Quaternion {
 	return quaternion.FromTheta(r.Float64()*2*math.Pi, nonZero3(r).Normalized())
 }
 
+// scale3 draws a scale vector; one in three is uniform (the same factor on all axes, including
+// 1, -1, 0, 2, .5): transform code commonly special-cases uniform, identity and rotation-free transforms.
+func scale3(r *rand.Rand) vector3.Float64 {
+	switch r.Intn(6) {
+	case 0:
+		return vector3.Fill([]float64{1, -1, 0, 2, .5, 1e-3, 1e3}[r.Intn(7)])
+	case 1:
+		return vector3.Fill(scalar(r))
+	}
+	return vec3(r)
+}
+
 func randTRS(r *rand.Rand) trs.TRS {
-	switch r.Intn(4) {
+	identity := quaternion.New(vector3.Zero[float64](), 1)
+	switch r.Intn(8) {
 	case 0:
 		return trs.Position(vec3(r))
 	case 1:
 		return trs.Rotation(quat(r))
 	case 2:
-		return trs.Scale(vec3(r))
+		return trs.Scale(scale3(r))
+	case 3: // rotation-free
+		return trs.New(vec3(r), identity, scale3(r))
+	case 4: // identity
+		return trs.New(vector3.Zero[float64](), identity, vector3.Fill(1.))
+	case 5:
+		return trs.New(vec3(r), quat(r), scale3(r))
 	}
 	return trs.New(vec3(r), quat(r), vec3(r))
 }
@@ -389,7 +408,7 @@ func All() []Op {
 			Run: func() ([]modeling.Mesh, error) { return one(rec.Translate(v)) }}
 	}})
 	add(Op{Name: "Mesh.Scale", Group: "mesh", Kind: Derive, Make: func(r *rand.Rand, m *modeling.Mesh, e *Env) Call {
-		rec, v := *m, vec3(r)
+		rec, v := *m, scale3(r)
 		return Call{Desc: fmt.Sprint("Scale", v.ToArr()), Pre: rec.HasFloat3Attribute(modeling.PositionAttribute),
 			Run: func() ([]modeling.Mesh, error) { return one(rec.Scale(v)) }}
 	}})
